@@ -10,7 +10,7 @@ Require Import Aiuti.CaseLib Aiuti.Buffer Aiuti.Case_Buffer Aiuti.Case_C08 Aiuti
 
 (* ---- the monitor over a block of WaitRet observations ------------------------------------- *)
 Definition set_pendc (x : m8) (pc : list nat) : m8 :=
-  mk8 (opened x) (nextc x) (tlast x) (anysub x) (burst x) (clean x) pc (ties x) (inflight x).
+  mk8 (opened x) (nextc x) (tlast x) (anysub x) (burst x) (clean x) pc (ties x) (inflight x) (tend x).
 
 Definition drop_w (ws : list waiter) (pc : list nat) : list nat :=
   fold_left (fun pc w => filter (fun v => negb (Nat.eqb v (wid w))) pc) ws pc.
@@ -114,7 +114,12 @@ Record RL (T : N) (s : state) (x : m8) : Prop := {
              | DAwait ins d => seteq ins (burst x) /\ (burst x <> [] -> d = (tlast x + T)%N) /\ (now s <= d)%N
              | DRun _ => True
              | _ => False
-             end
+             end;
+  (* an armed quiet timer lies ahead, at most [timeout] after the latest submission / end of a call *)
+  rl_late : match dm s with
+            | DAwait ins d => (now s <= d)%N /\ (d <= N.max (tlast x) (tend x) + T)%N
+            | _ => True
+            end
 }.
 
 (* the monitor state just before the observations of a (re)started round, relative to the
@@ -135,16 +140,16 @@ Proof. intros [_ H]. destruct b as [|y r]; [reflexivity|]. destruct (H y (or_int
 Ltac sim := cbn [fst snd dm callno nok q unfinished evset waiters gh seen wseen now tmo lastfire
                   set_dm set_calls load_gh set_gh set_waiters set_q set_event set_now set_seen set_wseen set_lastfire
                   gh_load gh_deliver gh_return gh_tie gh_offer gh_offer1 g_lastsub g_offered
-                  opened nextc tlast anysub pendc burst clean inflight ties set_pendc].
+                  opened nextc tlast anysub pendc burst clean inflight ties tend set_pendc].
 
 Lemma cr_mon T k s ins ld x :
   all_fin (ld ++ q s) -> (forall p, In p (ld ++ q s) -> wf_prod p) -> unfinished s = length (q s) -> tmo s = T ->
-  PreR s x ->
+  PreR s x -> (now s <= N.max (tlast x) (tend x))%N ->
   (clean x = true -> seteq (set_addl (pend (ld ++ q s)) ins) (burst x) /\ (burst x <> [] -> (now s + T = tlast x + T)%N)) ->
   exists x', walk_obs m8 (on_ob8 T true) k (snd (continue_round s ins ld)) x = Some x' /\
              RL T (fst (continue_round s ins ld)) x'.
 Proof.
-  intros Hf Hw Hu HT [P1 P2 P3 P4 P5 P6 P7] Hc. rewrite (cr_fin s ins ld Hf Hw Hu). cbv zeta.
+  intros Hf Hw Hu HT [P1 P2 P3 P4 P5 P6 P7] Hl Hc. rewrite (cr_fin s ins ld Hf Hw Hu). cbv zeta.
   set (ys := pend (ld ++ q s)) in *. set (ins' := set_addl ys ins) in *.
   assert (Hpass : forall w, In w (join_pass (waiters s)) -> wcancel w = true -> In (wid w) (pendc x)).
   { intros w Hin Hcn. destruct (pass_in _ _ Hin) as (w0 & Hin0 & E1 & E2). rewrite <- E1. apply P4; [exact Hin0|congruence]. }
@@ -165,6 +170,7 @@ Proof.
       * exact P7.
       * discriminate.
       * intros Hcl. split; [reflexivity|]. apply seteq_nil_l. apply (Hc Hcl).
+      * exact I.
     + cbn [fst snd walk_obs on_ob8]. unfold cr_base. cbn [callno set_dm set_calls load_gh set_gh set_waiters set_q now].
       rewrite P1, P2, Nat.eqb_refl. destruct (pendc x) as [|v pc] eqn:Ep; [destruct Hforced|].
       cbn [negb orb andb]. eexists. split; [reflexivity|]. constructor; sim.
@@ -177,6 +183,7 @@ Proof.
       * lia.
       * intros ? _ z [].
       * intros _. auto.
+      * exact I.
   - cbn [fst snd walk_obs]. exists x. split; [reflexivity|]. unfold cr_base. constructor; sim.
     + exact P1.
     + exact P2.
@@ -188,6 +195,7 @@ Proof.
     + discriminate.
     + intros Hcl. split; [reflexivity|]. destruct (Hc Hcl) as [A B]. split; [exact A|]. split; [|lia].
       intros Hb. rewrite HT. apply B, Hb.
+    + rewrite HT. lia.
 Qed.
 
 (* ---- the tracker's clock / id sets follow the model, for every event ------------------------ *)
@@ -318,11 +326,11 @@ Qed.
 
 Lemma sr_mon T k s x :
   all_fin (q s) -> (forall p, In p (q s) -> wf_prod p) -> unfinished s = length (q s) -> tmo s = T ->
-  PreR s x ->
+  PreR s x -> (now s <= N.max (tlast x) (tend x))%N ->
   (clean x = true -> seteq (set_addl (pend (q s)) []) (burst x) /\ (burst x <> [] -> (now s + T = tlast x + T)%N)) ->
   exists x', walk_obs m8 (on_ob8 T true) k (snd (start_round s)) x = Some x' /\ RL T (fst (start_round s)) x'.
 Proof.
-  intros Hf Hw Hu HT HP Hc. unfold start_round. destruct (q s) as [|p r] eqn:Eq.
+  intros Hf Hw Hu HT HP Hl Hc. unfold start_round. destruct (q s) as [|p r] eqn:Eq.
   - destruct HP as [P1 P2 P3 P4 P5 P6 P7]. exists x. split; [reflexivity|]. constructor; sim; auto.
     + discriminate.
     + intros Hcl. split; [exact Eq|]. apply seteq_nil_l. apply (Hc Hcl).
@@ -352,11 +360,11 @@ Lemma ev_submit T s k x p kd :
              RL T (fst (step s (Submit p kd))) x'.
 Proof.
   intros [[Hpk Hfin] [S1 S2 S3] [T1 T2 T3] [IA IB] HF Hwf] Hd (K1 & K2 & K3 & K4) HR Hk.
-  pose proof HR as [R1 R2 R3 R4 R5 R6 R7 R8 R9].
+  pose proof HR as [R1 R2 R3 R4 R5 R6 R7 R8 R9 R10].
   unfold step. rewrite Hd. unfold do_put. cbn [on_ev8]. unfold submit_accepted. rewrite K2, Hd, K3, mem_existsb. cbn [negb andb].
   destruct (existsb (Nat.eqb p) (seen s)) eqn:Ef; cbn [negb].
   - exists x. split; [reflexivity|exact HR].
-  - set (x0 := mk8 _ _ _ _ _ _ _ _ _).
+  - set (x0 := mk8 _ _ _ _ _ _ _ _ _ _).
     destruct (imm_prod_loads p kd Hk) as (Hpf & Hpy & Hpp).
     assert (Hwfm : wf_prod (mk_prod p kd)) by apply wf_mk_prod.
     destruct (dm s) eqn:Ed; try discriminate.
@@ -369,6 +377,7 @@ Proof.
       * rewrite Hq, S1. reflexivity.
       * exact T1.
       * constructor; sim; unfold x0; sim; auto. rewrite app_length. lia.
+      * unfold x0; sim. rewrite K1. lia.
       * unfold x0; sim. rewrite Hq. cbn [app]. rewrite pend_mk. intros Hcl.
         apply andb_prop in Hcl as [Hcl _]. apply andb_prop in Hcl as [Hcl _].
         destruct (R9 Hcl) as [_ Hb]. rewrite Hb. cbn [app]. split; [|intros _; rewrite K1; reflexivity].
@@ -383,6 +392,7 @@ Proof.
       * rewrite S1. reflexivity.
       * exact T1.
       * constructor; sim; unfold x0; sim; auto. rewrite app_length. lia.
+      * unfold x0; sim. rewrite K1. lia.
       * unfold x0; sim. cbn [app pend flat_map set_addl fold_left]. intros Hcl.
         apply andb_prop in Hcl as [Hcl _]. apply andb_prop in Hcl as [Hcl _].
         destruct (R9 Hcl) as [_ (Hb & _ & _)]. split; [apply seteq_add; exact Hb|intros _; rewrite K1; reflexivity].
@@ -411,7 +421,7 @@ Lemma ev_advance T s k x dt :
              RL T (fst (step s (Advance dt))) x'.
 Proof.
   intros [[Hpk Hfin] HS [T1 T2 T3] [IA IB] HF Hwf] Hd HR. pose proof HS as [S1 S2 S3].
-  pose proof HR as [R1 R2 R3 R4 R5 R6 R7 R8 R9].
+  pose proof HR as [R1 R2 R3 R4 R5 R6 R7 R8 R9 R10].
   unfold step. rewrite Hd. unfold do_advance.
   destruct (dm s) as [|ins ld g|ins d|ins p|ins|] eqn:Ed; try discriminate.
   - exists x. split; [reflexivity|]. constructor; sim; rewrite ?Ed; auto.
@@ -440,11 +450,15 @@ Proof.
           rewrite (subset_of_incl _ _ Hb1), (subset_of_incl _ _ Hb2), (Hbd Hbn).
           assert (E : (N.max (now s) (tlast x + T) =? tlast x + T)%N = true) by (rewrite (Hbd Hbn) in Hnd; lia).
           rewrite E. rewrite !orb_true_r. reflexivity. }
-        rewrite Hex. eexists. split; [reflexivity|]. constructor; sim; auto.
+        rewrite Hex.
+        assert (Hnl : (N.max (now s) d <=? N.max (tlast x) (tend x) + T)%N = true) by (apply N.leb_le; lia).
+        rewrite Hnl, orb_true_r. cbn [andb].
+        eexists. split; [reflexivity|]. constructor; sim; auto.
         -- f_equal. lia.
         -- rewrite Hq. intros ? _ z [].
     + exists x. split; [reflexivity|]. constructor; sim; rewrite ?Ed; auto.
-      intros Hcl. destruct (R9 Hcl) as [A (B & C & D)]. split; [exact A|]. split; [exact B|]. split; [exact C|lia].
+      * intros Hcl. destruct (R9 Hcl) as [A (B & C & D)]. split; [exact A|]. split; [exact B|]. split; [exact C|lia].
+      * lia.
   - exists x. split; [reflexivity|]. constructor; sim; rewrite ?Ed; auto.
   - unfold is_dead in Hd. rewrite Ed in Hd. discriminate.
 Qed.
@@ -468,7 +482,7 @@ Lemma ev_wait T s k x w c :
              RL T (fst (step s (Wait w c))) x'.
 Proof.
   intros [[Hpk Hfin] HS [T1 T2 T3] [IA IB] HF Hwf] Hd (K1 & K2 & K3 & K4) HR. pose proof HS as [S1 S2 S3].
-  pose proof HR as [R1 R2 R3 R4 R5 R6 R7 R8 R9].
+  pose proof HR as [R1 R2 R3 R4 R5 R6 R7 R8 R9 R10].
   unfold step. rewrite Hd. unfold do_wait.
   assert (Eacc : wait_accepted k w = negb (existsb (Nat.eqb w) (wseen s))).
   { unfold wait_accepted. rewrite K2, Hd, K4. reflexivity. }
@@ -478,15 +492,15 @@ Proof.
     set (x0 := on_ev8 T k (trk_ev k (Wait w c)) (Wait w c) x).
     assert (X0 : opened x0 = opened x /\ nextc x0 = nextc x /\ tlast x0 = tlast x /\ burst x0 = burst x /\
                  clean x0 = clean x /\ inflight x0 = inflight x /\ anysub x0 = anysub x /\
-                 pendc x0 = if c then pendc x ++ [w] else pendc x).
+                 (pendc x0 = if c then pendc x ++ [w] else pendc x) /\ tend x0 = tend x).
     { unfold x0. cbn [on_ev8]. destruct c; [rewrite Eacc|]; cbn; repeat split; reflexivity. }
-    destruct X0 as (X1 & X2 & X3 & X4 & X5 & X6 & X7 & X8). clearbody x0.
+    destruct X0 as (X1 & X2 & X3 & X4 & X5 & X6 & X7 & X8 & X9). clearbody x0.
     assert (Hfresh : forall w0, In w0 (waiters s) -> wid w0 <> w) by (intros w0 Hin E; apply Ef; rewrite <- E; apply R6, Hin).
     (* adding the new waiter, whatever its stage, with nothing observed *)
     assert (Add : forall st s1, dm s1 = dm s -> callno s1 = callno s -> gh s1 = gh_tie (gh s) (tie_now s) ->
               waiters s1 = waiters s ++ [mkw w c st (seen s)] -> wseen s1 = wseen s ++ [w] -> q s1 = q s -> now s1 = now s ->
               RL T s1 x0).
-    { intros st s1 E1 E2 E3 E4 E5 E6 E7. constructor; rewrite ?E1, ?E2, ?E3, ?E4, ?E5, ?E6, ?E7, ?X1, ?X2, ?X3, ?X4, ?X5, ?X6, ?X8; sim; auto.
+    { intros st s1 E1 E2 E3 E4 E5 E6 E7. constructor; rewrite ?E1, ?E2, ?E3, ?E4, ?E5, ?E6, ?E7, ?X1, ?X2, ?X3, ?X4, ?X5, ?X6, ?X8, ?X9; sim; auto.
       - intros w0 Hin Hc. apply in_app_or in Hin as [Hin|[<-|[]]].
         + destruct c; [apply in_or_app; left|]; apply R4; auto.
         + cbn in Hc. subst c. apply in_or_app. right. left. reflexivity.
@@ -536,17 +550,17 @@ Qed.
 
 (* ---- FnOk ---------------------------------------------------------------------------------------- *)
 Lemma ev_fnok T s k x :
-  MF T s -> is_dead s = false -> RL T s x ->
+  MF T s -> is_dead s = false -> k_now k = now s -> RL T s x ->
   exists x', walk_obs m8 (on_ob8 T true) k (snd (step s FnOk)) x = Some x' /\ RL T (fst (step s FnOk)) x'.
 Proof.
-  intros [[Hpk Hfin] HS [T1 T2 T3] [IA IB] HF Hwf] Hd HR. pose proof HS as [S1 S2 S3].
-  pose proof HR as [R1 R2 R3 R4 R5 R6 R7 R8 R9].
+  intros [[Hpk Hfin] HS [T1 T2 T3] [IA IB] HF Hwf] Hd K1 HR. pose proof HS as [S1 S2 S3].
+  pose proof HR as [R1 R2 R3 R4 R5 R6 R7 R8 R9 R10].
   unfold step. rewrite Hd. unfold do_fn_end.
   destruct (dm s) as [|ins0 ld g|ins0 d|ins0 p|ins|] eqn:Ed; try (exists x; split; [reflexivity|exact HR]).
   cbn [extra] in S1.
   unfold release, end_round. sim.
   set (rest := minus (firstn (inflight x) (burst x)) ins ++ skipn (inflight x) (burst x)).
-  set (x1 := mk8 None (nextc x) (tlast x) (anysub x) rest (match rest with [] => true | _ => false end) (pendc x) (ties x) 0).
+  set (x1 := mk8 None (nextc x) (tlast x) (anysub x) rest (match rest with [] => true | _ => false end) (pendc x) (ties x) 0 (k_now k)).
   set (x2 := set_pendc x1 (drop_w (filter is_onevent (waiters s)) (pendc x))).
   match goal with |- context [start_round ?a] => set (s2 := a) end.
   destruct (sr_mon T k s2 x2) as (x' & A & B); unfold s2; sim.
@@ -562,6 +576,7 @@ Proof.
     + apply nodup_filter_wid, R5.
     + intros w0 Hin. apply filter_In in Hin as [Hin _]. apply R6, Hin.
     + lia.
+  - unfold x2, x1; sim. rewrite K1. lia.
   - unfold x2, x1; sim. intros Hcl. destruct rest as [|z rr] eqn:Er; [|discriminate].
     unfold rest in Er. apply app_eq_nil in Er as [_ Er].
     pose proof (R8 ins eq_refl) as Hinc. rewrite Er in Hinc.
@@ -574,21 +589,22 @@ Qed.
 
 (* ---- FnFail -------------------------------------------------------------------------------------- *)
 Lemma ev_fnfail T s k x :
-  MF T s -> is_dead s = false -> RL T s x ->
+  MF T s -> is_dead s = false -> k_now k = now s -> RL T s x ->
   exists x', walk_obs m8 (on_ob8 T true) k (snd (step s FnFail)) x = Some x' /\ RL T (fst (step s FnFail)) x'.
 Proof.
-  intros [[Hpk Hfin] HS [T1 T2 T3] [IA IB] HF Hwf] Hd HR. pose proof HS as [S1 S2 S3].
-  pose proof HR as [R1 R2 R3 R4 R5 R6 R7 R8 R9].
+  intros [[Hpk Hfin] HS [T1 T2 T3] [IA IB] HF Hwf] Hd K1 HR. pose proof HS as [S1 S2 S3].
+  pose proof HR as [R1 R2 R3 R4 R5 R6 R7 R8 R9 R10].
   unfold step. rewrite Hd. unfold do_fn_end.
   destruct (dm s) as [|ins0 ld g|ins0 d|ins0 p|ins|] eqn:Ed; try (exists x; split; [reflexivity|exact HR]).
   cbn [extra] in S1.
-  set (x1 := mk8 None (nextc x) (tlast x) (anysub x) (burst x) false (pendc x) (ties x) 0).
+  set (x1 := mk8 None (nextc x) (tlast x) (anysub x) (burst x) false (pendc x) (ties x) 0 (k_now k)).
   destruct (cr_mon T k s ins [] x1) as (x' & A & B); sim.
   - exact Hfin.
   - exact Hwf.
   - lia.
   - exact T1.
   - constructor; unfold x1; sim; auto. lia.
+  - unfold x1; sim. rewrite K1. lia.
   - unfold x1; sim. discriminate.
   - destruct (continue_round s ins []) as [s1 o1]. exists x'. split; [|exact B].
     cbn [fst snd app walk_obs on_ob8] in *. rewrite R1, Nat.eqb_refl. fold x1. exact A.
@@ -616,8 +632,12 @@ Proof.
     + destruct (ev_submit T s k x p k0 HM Hd HTL HR He) as (x' & A & B). exists x'. auto.
     + destruct (ev_advance T s k x dt HM Hd HR) as (x' & A & B). exists x'. auto.
     + destruct (ev_wait T s k x w cancel HM Hd HTL HR) as (x' & A & B). exists x'. auto.
-    + destruct (ev_fnok T s (trk_ev k FnOk) x HM Hd HR) as (x' & A & B). exists x'. auto.
-    + destruct (ev_fnfail T s (trk_ev k FnFail) x HM Hd HR) as (x' & A & B). exists x'. auto.
+    + assert (Kn : k_now (trk_ev k FnOk) = now s).
+      { destruct HTL as (K1 & K2 & _). unfold trk_ev. rewrite K2, Hd. exact K1. }
+      destruct (ev_fnok T s (trk_ev k FnOk) x HM Hd Kn HR) as (x' & A & B). exists x'. auto.
+    + assert (Kn : k_now (trk_ev k FnFail) = now s).
+      { destruct HTL as (K1 & K2 & _). unfold trk_ev. rewrite K2, Hd. exact K1. }
+      destruct (ev_fnfail T s (trk_ev k FnFail) x HM Hd Kn HR) as (x' & A & B). exists x'. auto.
     + unfold step. rewrite Hd. cbn. eexists. split; [reflexivity|]. discriminate.
 Qed.
 
